@@ -70,6 +70,80 @@ func NonNilResult(fn *ssa.Function, idx int) bool {
 	return ok
 }
 
+var globalNonNilMemo = map[*ssa.Global]bool{}
+
+// globalNonNil: every store to the package-level variable g is in its package's initialiser and stores the
+// result of errors.New / fmt.Errorf (or a freshly boxed value); nothing takes its address otherwise.
+func globalNonNil(g *ssa.Global) bool {
+	threadMu.Lock()
+	v, done := globalNonNilMemo[g]
+	threadMu.Unlock()
+	if done {
+		return v
+	}
+	ok, stores := true, 0
+	if g.Pkg == nil {
+		ok = false
+	} else {
+		var fns []*ssa.Function
+		for _, m := range g.Pkg.Members {
+			switch x := m.(type) {
+			case *ssa.Function:
+				fns = append(fns, WithAnon(x)...)
+			case *ssa.Type:
+				for _, t := range []types.Type{x.Type(), types.NewPointer(x.Type())} {
+					ms := g.Pkg.Prog.MethodSets.MethodSet(t)
+					for i := 0; i < ms.Len(); i++ {
+						if f := g.Pkg.Prog.MethodValue(ms.At(i)); f != nil && f.Pkg == g.Pkg {
+							fns = append(fns, WithAnon(f)...)
+						}
+					}
+				}
+			}
+		}
+		for _, fn := range fns {
+			for _, b := range fn.Blocks {
+				for _, in := range b.Instrs {
+					for _, op := range in.Operands(nil) {
+						if *op != ssa.Value(g) {
+							continue
+						}
+						switch y := in.(type) {
+						case *ssa.UnOp:
+							// a load
+						case *ssa.Store:
+							if y.Addr != ssa.Value(g) || fn.Name() != "init" || fn.Synthetic == "" {
+								ok = false
+								continue
+							}
+							stores++
+							good := false
+							switch val := y.Val.(type) {
+							case *ssa.Call:
+								if f := val.Call.StaticCallee(); f != nil && (f.String() == "errors.New" || f.String() == "fmt.Errorf") {
+									good = true
+								}
+							case *ssa.MakeInterface:
+								good = true
+							}
+							if !good {
+								ok = false
+							}
+						default:
+							ok = false // address taken
+						}
+					}
+				}
+			}
+		}
+	}
+	ok = ok && stores > 0
+	threadMu.Lock()
+	globalNonNilMemo[g] = ok
+	threadMu.Unlock()
+	return ok
+}
+
 // nilness of v when control is in block `at` (conditions dominating `at` hold): +1 non-nil, -1 nil, 0 unknown.
 func nilness(v ssa.Value, at *ssa.BasicBlock, depth int, extra ...Cond) int {
 	if depth > 6 {
@@ -83,6 +157,11 @@ func nilness(v ssa.Value, at *ssa.BasicBlock, depth int, extra ...Cond) int {
 		return 0
 	case *ssa.MakeInterface, *ssa.Alloc, *ssa.MakeMap, *ssa.MakeSlice, *ssa.MakeChan, *ssa.MakeClosure, *ssa.FieldAddr, *ssa.IndexAddr, *ssa.Function, *ssa.Global:
 		return 1
+	case *ssa.UnOp:
+		// a package-level error value: set once, in the package initialiser, from a constructor
+		if g, ok := x.X.(*ssa.Global); ok && x.Op == token.MUL && globalNonNil(g) {
+			return 1
+		}
 	case *ssa.ChangeInterface:
 		if n := nilness(x.X, at, depth+1, extra...); n != 0 {
 			return n
@@ -215,7 +294,9 @@ func boolness(v ssa.Value, at *ssa.BasicBlock, depth int, extra ...Cond) int {
 // wstate is a position in an edge-sensitive walk: block cur was entered from prev; anchor is the last
 // block with φ-nodes on the way (entered from apred), so that a test of one of its φs further down —
 // `x, err := f(); if err != nil {…}; if x {…}` — can still be resolved.
-type wstate struct{ prev, cur, anchor, apred *ssa.BasicBlock }
+// anchor2/apred2: the join before that one, for a φ whose incoming value is itself a φ of the previous join (nested
+// `if`s that end in the same assignment: `if a { if b { err = E } }; if err != nil {…}`).
+type wstate struct{ prev, cur, anchor, apred, anchor2, apred2 *ssa.BasicBlock }
 
 func hasPhi(b *ssa.BasicBlock) bool {
 	if len(b.Instrs) == 0 {
@@ -226,8 +307,9 @@ func hasPhi(b *ssa.BasicBlock) bool {
 }
 
 func enterState(from wstate, to *ssa.BasicBlock) wstate {
-	st := wstate{prev: from.cur, cur: to, anchor: from.anchor, apred: from.apred}
+	st := wstate{prev: from.cur, cur: to, anchor: from.anchor, apred: from.apred, anchor2: from.anchor2, apred2: from.apred2}
 	if hasPhi(to) {
+		st.anchor2, st.apred2 = from.anchor, from.apred
 		st.anchor, st.apred = to, from.cur
 	}
 	return st
@@ -286,19 +368,37 @@ func condOutcome(c ssa.Value, st wstate, depth int) int {
 			}
 		}
 	}
-	// the value tested, resolved for the way into the anchor block
+	// the value tested, resolved for the way into the anchor block (and, when what comes in is a φ of the join
+	// before, for the way into that one)
+	edgeVal := func(phi *ssa.Phi, blk, pred *ssa.BasicBlock) ssa.Value {
+		var got ssa.Value
+		for i, pr := range blk.Preds {
+			if pr == pred {
+				if got != nil && got != phi.Edges[i] {
+					return nil
+				}
+				got = phi.Edges[i]
+			}
+		}
+		return got
+	}
 	resolve := func(v ssa.Value) (ssa.Value, *ssa.BasicBlock) {
 		if phi, ok := v.(*ssa.Phi); ok && st.anchor != nil && phi.Block() == st.anchor && st.apred != nil {
-			var got ssa.Value
-			for i, pr := range st.anchor.Preds {
-				if pr == st.apred {
-					if got != nil && got != phi.Edges[i] {
-						return v, b
+			if got := edgeVal(phi, st.anchor, st.apred); got != nil {
+				if phi2, ok := got.(*ssa.Phi); ok && st.anchor2 != nil && st.anchor2 != st.anchor && phi2.Block() == st.anchor2 && st.apred2 != nil {
+					if got2 := edgeVal(phi2, st.anchor2, st.apred2); got2 != nil {
+						if p := st.apred2; p != nil {
+							if pi, ok := lastInstr(p).(*ssa.If); ok && p.Succs[0] != p.Succs[1] {
+								if p.Succs[0] == st.anchor2 {
+									edge = append(edge, Cond{pi.Cond, true, pi})
+								} else if p.Succs[1] == st.anchor2 {
+									edge = append(edge, Cond{pi.Cond, false, pi})
+								}
+							}
+						}
+						return got2, st.apred2
 					}
-					got = phi.Edges[i]
 				}
-			}
-			if got != nil {
 				return got, st.apred
 			}
 		}
